@@ -9,10 +9,14 @@ BAND = Fr(1, 10 ** 9)
 BASE_ORD = datetime.date(1899, 12, 30).toordinal()
 
 
-def canon(v, _depth=0):
-    """Type-strict, hashable, recursive canonical form of a Python value."""
+def canon(v, _depth=0, _path=()):
+    """Type-strict, hashable, recursive canonical form of a Python value (a container met inside itself is named, not unrolled)."""
     if _depth > 150:
         return ('deep', type(v).__name__, id(v))
+    if isinstance(v, (list, tuple, dict)):
+        if id(v) in _path:
+            return ('itself', len(_path) - _path.index(id(v)))
+        _path = _path + (id(v),)
     if v is None:
         return ('blank',)
     if isinstance(v, bool):
@@ -28,14 +32,14 @@ def canon(v, _depth=0):
     if isinstance(v, datetime.datetime):
         return ('dt', v.isoformat())
     if isinstance(v, (list, tuple)):
-        return (type(v).__name__,) + tuple(canon(x, _depth + 1) for x in v)
+        return (type(v).__name__,) + tuple(canon(x, _depth + 1, _path) for x in v)
     if isinstance(v, BaseException):
         try:
             return ('exc', type(v).__name__, str(v))
         except BaseException:
             return ('exc', type(v).__name__, '?')
     if isinstance(v, dict):
-        return ('dict',) + tuple(sorted((repr(k), canon(x, _depth + 1)) for k, x in v.items()))
+        return ('dict',) + tuple(sorted((repr(k), canon(x, _depth + 1, _path)) for k, x in v.items()))
     return ('obj', type(v).__name__, id(v))
 
 
